@@ -311,6 +311,10 @@ func Edits(d *Dialect) []Edit {
 			f.RefTable, f.RefColumns = u, []*schema.Column{C(u, "uid")}
 		}, []string{mt("ModifyForeignKey(fk_a)[ref_column,ref_table]")}},
 		{"add_check", []string{"check:ck_c", "col:c"}, func(s *schema.Schema) { T(s, "t").AddChecks(schema.NewCheck().SetName("ck_c").SetExpr("c > 0")) }, []string{mt("AddCheck(ck_c)")}},
+		// an unnamed check (its addition cannot be reversed) followed by a named one in the same ALTER.
+		{"add_unnamed_then_named_check", []string{"check:ck_d", "check:unnamed", "col:d"}, func(s *schema.Schema) {
+			T(s, "t").AddChecks(schema.NewCheck().SetExpr("d > 1"), schema.NewCheck().SetName("ck_d").SetExpr("d > 2"))
+		}, []string{mt("AddCheck()"), mt("AddCheck(ck_d)")}},
 		{"drop_check", []string{"check:ck_a"}, func(s *schema.Schema) {
 			t := T(s, "t")
 			_, i := checkOf(t, "ck_a")
